@@ -64,7 +64,12 @@ AddOutcomes(c, s, ev) ==
                   dropped == {[st |-> [s EXCEPT !.tr = Without(@, k), !.tmp = @ \ {<<k, s.tr[k].from>>}],
                                ret |-> FALSE, fin |-> FALSE]}
               IN
-              IF corruptMain
+              IF ev.evil
+                THEN \* a file name that points out of the snapshot's directory ("..", "."): refused - ignored without
+                     \* effect or the stream is dropped with it -, never saved
+                     \* (a replica that was removed refuses every chunk before it looks at it: nodeRemoved)
+                     (IF s.removed THEN AfterRecord([removed |-> TRUE], adv(s.tr[k].bad), ev, s.tr[k].bad) ELSE same \cup dropped)
+              ELSE IF corruptMain
                 THEN \* noticed by the validator now, or saved and noticed with a later chunk / at the end
                      \* (the validator checks a block once the following block has arrived)
                      (IF s.removed THEN AfterRecord([removed |-> TRUE], adv("yes"), ev, "yes") ELSE dropped)
